@@ -12,9 +12,11 @@ TIERS = {
     "thorough": dict(mc=["MC_CifEdit_quick.cfg", "MC_CifEdit_full2.cfg", "MC_CifEdit_rows3.cfg"],
                      gen="Gen_CifEdit_thorough.cfg", rnd=8000, corpus_bytes=10_000_000, corpus_ops=6),
 }
-NEGATIVE = [("MC_CifEdit_neg_path.cfg", "main passes the path as file_content (CliReadsFile = FALSE)"),
+NEGATIVE = [("MC_CifEdit_neg_inplace.cfg", "main opens the output before reading the input (CliOpensOutputFirst = "
+                                         "TRUE): editing a file in place sees an empty input"),
+            ("MC_CifEdit_neg_path.cfg", "main passes the path as file_content (CliReadsFile = FALSE)"),
             ("MC_CifEdit_neg_tuple.cfg", "main writes replace_value's tuple (CliWritesText = FALSE)"),
-            ("MC_CifEdit_neg_asimpl.cfg", "main as implemented (both)")]    # the third one: thorough only
+            ("MC_CifEdit_neg_asimpl.cfg", "main as implemented (both)")]    # the last one: thorough only
 ACTIONS = ("LibCall", "CliCopy", "CliReplace", "ReadFile", "ReturnUnchanged", "BeginCopy", "CopyRow",
            "BeginReplace", "ReplaceRow", "WriteFile", "LibReturn", "CliWrite")
 
@@ -69,7 +71,7 @@ def run(tier):
         # design-level model checks run beside the recording (they only need TLC)
         pool = ThreadPoolExecutor(max_workers=8)
         mc_jobs = [pool.submit(lib.mc, "MC_CifEdit", cfg, sc, workers=4 if tier == "quick" else 8) for cfg in t["mc"]]
-        negs = NEGATIVE if tier == "thorough" else NEGATIVE[:2]
+        negs = NEGATIVE if tier == "thorough" else NEGATIVE[:3]
         neg_jobs = [pool.submit(lib.mc, "MC_CifEdit", cfg, sc, expect_violation="CliEqualsLib", workers=2)
                     for cfg, _ in negs]
 
@@ -119,7 +121,7 @@ def run(tier):
                        f"category; exhaustiveness re-checked by TLC) + {len(rnd)} seeded random documents (<= 4 "
                        f"categories, 5 items, 6 rows, {len(ce.VALUE_POOL)} value shapes, punctuation alphabets) + "
                        f"{len(cor)} operations on corpus files; each input is run through the library AND through "
-                       "transformer.main (2 trace cases). Non-trivial = distinct (document, operation) whose "
+                       "transformer.main - to a separate output file and in place, output path = input path (3 trace cases). Non-trivial = distinct (document, operation) whose "
                        "category and source item exist (an actual edit).")
         cov["distinct_nontrivial"] = len({json.dumps([c["in"], c["op"]], sort_keys=True) for c in edits})
         cov["inputs"] = {"gen": len(gen), "random": len(rnd), "corpus": len(cor)}
@@ -149,7 +151,12 @@ def replay(doc):
     rep = lib.Report(PID, "quick", "model_checking", evidence=False)
     with lib.Scratch("c20r") as sc:
         ce.set_workdir(sc.dir)
-        base = {"id": case["id"].rsplit("-", 1)[0], "src": case["src"], "op": case["op"]}
+        stem = case["id"]
+        for suffix in ("-cli-inplace", "-cli", "-lib"):
+            if stem.endswith(suffix):
+                stem = stem[:-len(suffix)]
+                break
+        base = {"id": stem, "src": case["src"], "op": case["op"]}
         if case["src"] == "corpus":
             base["file"] = case["file"]
         else:
